@@ -14,7 +14,8 @@ RULE = ("1-8 recording systems (mixed priorities/windows); completion point = (s
         "execute_systems(), execute_systems(throw_error=True), add_system, remove_system, duplicate add, unknown "
         "removal, rejected n, complete() again}; non-trivial = completion from outside, or from a system that is "
         "neither first nor last with >=1 due system behind it, followed by >=3 further requests; distinct = "
-        "(queue length, completer position, due systems behind, inside multi-step?, tail op kinds)")
+        "(queue length, completer position, due systems behind, inside multi-step?, tail op kinds)"
+        "; also: completion before the first step, a completer that raises right after complete(), systems bound to another (running) model")
 COMPONENTS = {"real": ["ECAgent.Core.Model.complete/is_running/__bool__/execute", "ECAgent.Core.SystemManager.execute_systems",
                        "add_system/remove_system after completion"],
               "stub": ["System.execute bodies are harness recorders; the completer calls model.complete() when scripted"]}
